@@ -14,6 +14,10 @@ impl<'a> AsRef<[u8]> for Views<'a> {
     fn as_ref(&self) -> &[u8] {
         let i = self.calls.get();
         self.calls.set(i + 1);
+        if self.views.is_empty() {
+            // an argument that cannot produce its bytes: the call must leave the hasher as it was
+            panic!("as_ref() of the update argument panics");
+        }
         self.views[i.min(self.views.len() - 1)]
     }
 }
